@@ -122,7 +122,7 @@ def _on_alarm(signum, frame):
     raise Hang()
 
 
-HANG_SECONDS = 10
+HANG_SECONDS = 15      # CPU seconds (ITIMER_VIRTUAL): independent of machine load
 
 
 _PROGRESS = None      # (RawArray, slot) set in pool workers
@@ -140,7 +140,7 @@ def run_shard(args):
     first = last = None
     mid = None
     n = 0
-    signal.signal(signal.SIGALRM, _on_alarm)
+    signal.signal(signal.SIGVTALRM, _on_alarm)
     try:
         for case in mod.cases(shard):
             ctx.case = case
@@ -155,17 +155,17 @@ def run_shard(args):
             elif n & (n - 1) == 0:     # powers of two: a cheap "somewhere in the middle"
                 mid = case
             last = case
-            signal.setitimer(signal.ITIMER_REAL, HANG_SECONDS)
+            signal.setitimer(signal.ITIMER_VIRTUAL, HANG_SECONDS)
             try:
                 mod.check(case, ctx)
             except Hang:
-                ctx.fail(f'hang: the case did not finish within {HANG_SECONDS} s (termination)', hang=True)
+                ctx.fail(f'hang: the case did not finish within {HANG_SECONDS} CPU-seconds (termination)', hang=True)
             finally:
-                signal.setitimer(signal.ITIMER_REAL, 0)
+                signal.setitimer(signal.ITIMER_VIRTUAL, 0)
             if stop_after is not None and n - 1 >= stop_after:
                 break
     except Exception:
-        signal.setitimer(signal.ITIMER_REAL, 0)
+        signal.setitimer(signal.ITIMER_VIRTUAL, 0)
         return {'shard': shard, 'error': traceback.format_exc(), 'case': _j(ctx.case)}
     samples = [c for c in (first, mid, last) if c is not None]
     return {
@@ -181,7 +181,17 @@ def _init_worker():
     setup_path()
 
 
-KILL_SECONDS = 25
+KILL_SECONDS = 30      # CPU seconds burnt by a worker without finishing a case
+KILL_WALL_SECONDS = 900   # wall-clock fallback (a worker blocked without using CPU)
+
+
+def _cpu_seconds(pid):
+    try:
+        with open(f'/proc/{pid}/stat') as fh:
+            f = fh.read().rsplit(')', 1)[1].split()
+        return (int(f[11]) + int(f[12])) / os.sysconf('SC_CLK_TCK')
+    except Exception:       # noqa: BLE001
+        return 0.0
 MAX_HANGS = 2
 
 
@@ -217,7 +227,7 @@ def run_pool(prop, mod, shards, jobs):
         p = ctxmp.Process(target=_worker_main, args=(child, progress, slot), daemon=False)
         p.start()
         child.close()
-        workers[slot] = {'proc': p, 'conn': parent, 'busy': None, 'last': 0, 'since': time.time()}
+        workers[slot] = {'proc': p, 'conn': parent, 'busy': None, 'last': 0, 'since': time.time(), 'cpu': 0.0}
 
     for i in range(jobs):
         spawn(i)
@@ -235,6 +245,7 @@ def run_pool(prop, mod, shards, jobs):
                 w['busy'] = (idx, args)
                 w['last'] = 0
                 w['since'] = time.time()
+                w['cpu'] = _cpu_seconds(w['proc'].pid)
                 progress[slot] = 0
                 w['conn'].send((idx, args))
         ready = mpc.wait([w['conn'] for w in workers if w['busy'] is not None], timeout=1.0)
@@ -257,7 +268,8 @@ def run_pool(prop, mod, shards, jobs):
             if cur != w['last']:
                 w['last'] = cur
                 w['since'] = now
-            elif now - w['since'] > KILL_SECONDS:
+                w['cpu'] = _cpu_seconds(w['proc'].pid)
+            elif (now - w['since'] > 5 and _cpu_seconds(w['proc'].pid) - w['cpu'] > KILL_SECONDS) or now - w['since'] > KILL_WALL_SECONDS:
                 idx, args = w['busy']
                 w['proc'].kill()
                 w['proc'].join()
@@ -268,7 +280,7 @@ def run_pool(prop, mod, shards, jobs):
                         case = c
                         break
                 hang_fails.append({'sub': args[1].get('sub'), 'case': case, 'hang': True,
-                                   'msg': f'hang: the case did not finish within {KILL_SECONDS} s and could not be interrupted (termination)',
+                                   'msg': f'hang: the case burnt more than {KILL_SECONDS} CPU-seconds without finishing and could not be interrupted (termination)',
                                    'expected': 'a result or a documented error', 'observed': 'no return', 'repro': None})
                 hangs += 1
                 spawn(slot)
